@@ -33,7 +33,8 @@ def _gen_archive(rng, nmax=7):
     k = 0
     while len(mem) < n:
         parent = rng.choice(dirs + ["", ""])
-        nm = (parent + "/" if parent else "") + "f%d%s" % (k, rng.choice([".txt", ".bin", "", " x"]))
+        # zero padded: no name may be a proper string prefix of another except along '/' boundaries (the quantifier's restriction)
+        nm = (parent + "/" if parent else "") + "f%02d%s" % (k, rng.choice([".txt", ".bin", "", " x"]))
         k += 1
         kind = "emptyfile" if rng.random() < 0.15 else "file"
         mem.append((nm, kind, G.materialise(G.content_recipe(rng, max_len=3000)) if kind == "file" else b""))
